@@ -1537,6 +1537,26 @@ func (ex *Exec) evalCompositeLit(st *State, e *ast.CompositeLit, sc *SpecCtx) *V
 	switch u := t.Underlying().(type) {
 	case *types.Struct:
 		v := ex.zeroVal(t)
+		if v.Sh.IsLeaf() && strings.HasPrefix(v.Sh.Leaf, "K_") {
+			// a struct used as a map key (`keytype`): an injective constructor over its fields
+			fields := make([]*Val, u.NumFields())
+			for i := 0; i < u.NumFields(); i++ {
+				fields[i] = ex.zeroVal(u.Field(i).Type())
+			}
+			for i, el := range e.Elts {
+				if kv, ok := el.(*ast.KeyValueExpr); ok {
+					name := kv.Key.(*ast.Ident).Name
+					for j := 0; j < u.NumFields(); j++ {
+						if u.Field(j).Name() == name {
+							fields[j] = ex.assignConv(st, ex.eval(st, kv.Value, sc), u.Field(j).Type(), kv.Pos())
+						}
+					}
+				} else if i < u.NumFields() {
+					fields[i] = ex.assignConv(st, ex.eval(st, el, sc), u.Field(i).Type(), el.Pos())
+				}
+			}
+			return &Val{Sh: v.Sh, T: t, S: ex.keyCons(v.Sh.Leaf, u, fields)}
+		}
 		if v.Sh.IsLeaf() || len(v.Kids) == 0 {
 			// opaque special type
 			for _, el := range e.Elts {
@@ -1628,6 +1648,29 @@ func (ex *Exec) evalCompositeLitAs(st *State, cl *ast.CompositeLit, t types.Type
 		}
 	}
 	return ex.freshVal(t, "elided")
+}
+
+// keyCons: the term mk_K(f1,...,fn) of a `keytype` struct, with projections that make the constructor injective.
+func (ex *Exec) keyCons(sort string, u *types.Struct, fields []*Val) string {
+	var sorts, terms, vars, xs []string
+	for i, f := range fields {
+		fs := "Int"
+		if f.Sh != nil && f.Sh.IsLeaf() {
+			fs = f.Sh.Leaf
+		}
+		sorts = append(sorts, fs)
+		terms = append(terms, f.S)
+		vars = append(vars, fmt.Sprintf("(x%d %s)", i, fs))
+		xs = append(xs, fmt.Sprintf("x%d", i))
+	}
+	mk := "mk_" + sort
+	ex.eng.smt.declFun(mk, "(declare-fun "+mk+" ("+strings.Join(sorts, " ")+") "+sort+")")
+	for i := range fields {
+		pr := fmt.Sprintf("pr%d_%s", i, sort)
+		ex.eng.smt.declFun(pr, "(declare-fun "+pr+" ("+sort+") "+sorts[i]+")")
+		ex.eng.smt.addFunAx(pr, "(forall ("+strings.Join(vars, " ")+") (! (= ("+pr+" ("+mk+" "+strings.Join(xs, " ")+")) "+xs[i]+") :pattern (("+mk+" "+strings.Join(xs, " ")+"))))")
+	}
+	return "(" + mk + " " + strings.Join(terms, " ") + ")"
 }
 
 func fieldType(s *types.Struct, name string) types.Type {
